@@ -29,21 +29,29 @@ Section Reach.
         /\ (f_canmap (g w) || f_caneach (g w) = true ->
             f_isptr (g w) = ptrness (f_ty w) /\ forall x, f_isptr (h (set_target x r)) = ptrness (f_ty r))).
 
-  Inductive trans : st -> st -> Prop :=
-  | T_to : forall s i j g h,
+  (* a guarded claim made while the loops are at the pair (i, j) *)
+  Inductive trans_at (i j : nat) : st -> st -> Prop :=
+  | T_to : forall s g h,
       in_range s i j -> dst_free s j = true ->
       can_name_match (src_at s i) (dst_at s j) tm ic = true ->
       claim_ok true (src_at s i) (dst_at s j) g h ->
-      trans s (to_claim i j g h s)
-  | T_from : forall s i j g h,
+      trans_at i j s (to_claim i j g h s)
+  | T_from : forall s g h,
       in_range s i j -> src_free s i = true ->
       can_name_match (src_at s i) (dst_at s j) tm ic = true ->
       claim_ok false (dst_at s j) (src_at s i) g h ->
-      trans s (from_claim i j g h s).
+      trans_at i j s (from_claim i j g h s).
+
+  Definition trans (s s' : st) : Prop := exists i j, trans_at i j s s'.
 
   Inductive reach : st -> st -> Prop :=
   | R_refl : forall s, reach s s
   | R_step : forall s s1 s2, trans s s1 -> reach s1 s2 -> reach s s2.
+
+  (* ... all of them at the same pair *)
+  Inductive reach_at (i j : nat) : st -> st -> Prop :=
+  | RA_refl : forall s, reach_at i j s s
+  | RA_step : forall s s1 s2, trans_at i j s s1 -> reach_at i j s1 s2 -> reach_at i j s s2.
 
   Lemma reach_trans a b c : reach a b -> reach b c -> reach a c.
   Proof. induction 1; intros; auto. econstructor; eauto. Qed.
@@ -51,9 +59,22 @@ Section Reach.
   Lemma reach_one a b : trans a b -> reach a b.
   Proof. intros. econstructor; eauto. constructor. Qed.
 
+  Lemma reach_at_trans i j a b c : reach_at i j a b -> reach_at i j b c -> reach_at i j a c.
+  Proof. induction 1; intros; auto. econstructor; eauto. Qed.
+
+  Lemma reach_at_one i j a b : trans_at i j a b -> reach_at i j a b.
+  Proof. intros. econstructor; eauto. constructor. Qed.
+
+  Lemma reach_at_reach i j a b : reach_at i j a b -> reach a b.
+  Proof. induction 1; [constructor|]. econstructor; eauto. exists i, j. auto. Qed.
+
   (* any property kept by the transitions is kept by reach *)
   Lemma reach_inv (P : st -> Prop) :
     (forall s s', trans s s' -> P s -> P s') -> forall s s', reach s s' -> P s -> P s'.
+  Proof. intros H s s' R. induction R; intros; auto. apply IHR. eapply H; eauto. Qed.
+
+  Lemma reach_at_inv i j (P : st -> Prop) :
+    (forall s s', trans_at i j s s' -> P s -> P s') -> forall s s', reach_at i j s s' -> P s -> P s'.
   Proof. intros H s s' R. induction R; intros; auto. apply IHR. eapply H; eauto. Qed.
 
   Lemma to_claim_core s i j g h :
@@ -84,7 +105,7 @@ Section Reach.
 
   Lemma trans_core s s' : trans s s' -> Core s s'.
   Proof.
-    intros T. destruct T as [s i j g h R _ _ (Kg & _ & Kh & _) | s i j g h R _ _ (Kg & _ & Kh & _)].
+    intros (i & j & T). destruct T as [s g h R _ _ (Kg & _ & Kh & _) | s g h R _ _ (Kg & _ & Kh & _)].
     - apply to_claim_core; auto.
     - apply from_claim_core; auto.
   Qed.
@@ -93,6 +114,9 @@ Section Reach.
   Proof.
     induction 1; [apply Core_refl|]. eapply Core_trans; [apply trans_core; eauto | auto].
   Qed.
+
+  Lemma reach_at_core i j s s' : reach_at i j s s' -> Core s s'.
+  Proof. intros R. apply reach_core. eapply reach_at_reach; eauto. Qed.
 
   Definition NM (s : st) (i j : nat) : Prop := can_name_match (src_at s i) (dst_at s j) tm ic = true.
 
@@ -185,31 +209,31 @@ Section Reach.
 
   (* ---------------------------------------------------------- makeFuncMap *)
   Lemma func_loop_reach : forall l s i j,
-    (forall fn, In fn l -> In fn fns) -> in_range s i j -> NM s i j -> reach s (func_loop l i j s).
+    (forall fn, In fn l -> In fn fns) -> in_range s i j -> NM s i j -> reach_at i j s (func_loop l i j s).
   Proof.
     induction l as [|fn l IH]; intros s i j Hin R N; simpl; [constructor|].
     set (t1 := f_ty (src_at s i)). set (t2 := f_ty (dst_at s j)).
     set (s1 := if dst_free s j && (type_equals (mf_param fn) t1 && type_equals (mf_result fn) t2)
                then to_claim i j (set_func (mf_name fn)) (fun f => f) s else s).
     assert (FN : mf_name fn <> "") by (apply fn_names; apply Hin; left; auto).
-    assert (R1 : reach s s1).
+    assert (R1 : reach_at i j s s1).
     { unfold s1. destruct (dst_free s j && _) eqn:C; [|constructor].
       apply andb_true_iff in C. destruct C as (C1 & C2). apply andb_true_iff in C2. destruct C2 as (C2 & C3).
-      apply reach_one. constructor; auto. apply claim_ok_func; auto. apply Hin. left; auto. }
-    assert (C1 := reach_core _ _ R1).
+      apply reach_at_one. constructor; auto. apply claim_ok_func; auto. apply Hin. left; auto. }
+    assert (C1 := reach_at_core _ _ _ _ R1).
     assert (Rg1 : in_range s1 i j) by (eapply in_range_core; eauto).
     assert (N1 : NM s1 i j) by (eapply NM_core; eauto).
     destruct (ty_core _ _ C1) as (TS & TD).
     set (s2 := if src_free s1 i && (type_equals (mf_param fn) t2 && type_equals (mf_result fn) t1)
                then from_claim i j (set_func (mf_name fn)) (fun f => f) s1 else s1).
-    assert (R2 : reach s1 s2).
+    assert (R2 : reach_at i j s1 s2).
     { unfold s2. destruct (src_free s1 i && _) eqn:C; [|constructor].
       apply andb_true_iff in C. destruct C as (C1' & C2). apply andb_true_iff in C2. destruct C2 as (C2 & C3).
-      apply reach_one. constructor; auto. apply claim_ok_func; [apply Hin; left; auto | rewrite TD; auto | rewrite TS; auto]. }
-    assert (R02 : reach s s2) by (eapply reach_trans; eauto).
-    assert (C2 := reach_core _ _ R02).
+      apply reach_at_one. constructor; auto. apply claim_ok_func; [apply Hin; left; auto | rewrite TD; auto | rewrite TS; auto]. }
+    assert (R02 : reach_at i j s s2) by (eapply reach_at_trans; eauto).
+    assert (C2 := reach_at_core _ _ _ _ R02).
     destruct (f_target (src_at s2 i)); [destruct (f_target (dst_at s2 j))|]; auto;
-      (eapply reach_trans; [exact R02 | apply IH; [intros f Hf; apply Hin; right; auto | eapply in_range_core; eauto | eapply NM_core; eauto]]).
+      (eapply reach_at_trans; [exact R02 | apply IH; [intros f Hf; apply Hin; right; auto | eapply in_range_core; eauto | eapply NM_core; eauto]]).
   Qed.
 
   (* ----------------------------------------------------------- makeSubMap *)
@@ -217,7 +241,7 @@ Section Reach.
     in_range s i j -> NM s i j ->
     (if is_slice then f_ty (src_at s i) = TSlice typ1 /\ f_ty (dst_at s j) = TSlice typ2
      else f_ty (src_at s i) = typ1 /\ f_ty (dst_at s j) = typ2) ->
-    reach s (sub_map i j typ1 typ2 is_slice s).
+    reach_at i j s (sub_map i j typ1 typ2 is_slice s).
   Proof.
     intros R N HT. unfold sub_map.
     destruct (strip_ptr typ1) as (isptr1, t1) eqn:S1. destruct (strip_ptr typ2) as (isptr2, t2) eqn:S2.
@@ -226,16 +250,16 @@ Section Reach.
     set (s1 := if dst_free s j
                then to_claim i j (fun f => set_isptr isptr2 (set_submap is_slice (TNamed PDst n2) f)) (set_isptr isptr1) s
                else s).
-    assert (R1 : reach s s1).
+    assert (R1 : reach_at i j s s1).
     { unfold s1. destruct (dst_free s j) eqn:C; [|constructor].
-      apply reach_one. constructor; auto.
+      apply reach_at_one. constructor; auto.
       apply (claim_ok_submap true (src_at s i) (dst_at s j) is_slice isptr1 isptr2 n1 n2).
       destruct is_slice.
       - destruct HT as (E1 & E2). exists typ1, typ2. auto.
       - destruct HT as (E1 & E2). rewrite E1, E2. auto. }
-    assert (C1 := reach_core _ _ R1). destruct (ty_core _ _ C1) as (TS & TD).
+    assert (C1 := reach_at_core _ _ _ _ R1). destruct (ty_core _ _ C1) as (TS & TD).
     destruct (src_free s1 i) eqn:C; [|exact R1].
-    eapply reach_trans; [exact R1|]. apply reach_one. constructor; auto.
+    eapply reach_at_trans; [exact R1|]. apply reach_at_one. constructor; auto.
     - eapply in_range_core; eauto.
     - eapply NM_core; eauto.
     - apply (claim_ok_submap false (dst_at s1 j) (src_at s1 i) is_slice isptr2 isptr1 n1 n2).
@@ -244,7 +268,7 @@ Section Reach.
       + destruct HT as (E1 & E2). rewrite E1, E2. auto.
   Qed.
 
-  Lemma sub_list_map_reach s i j : in_range s i j -> NM s i j -> reach s (sub_list_map i j s).
+  Lemma sub_list_map_reach s i j : in_range s i j -> NM s i j -> reach_at i j s (sub_list_map i j s).
   Proof.
     intros R N. unfold sub_list_map.
     destruct (f_ty (src_at s i)) eqn:E1; try constructor.
@@ -252,22 +276,22 @@ Section Reach.
     apply sub_map_reach; auto.
   Qed.
 
-  Lemma step_mismatch_reach s i j : in_range s i j -> reach s (step_mismatch tm ic fns i j s).
+  Lemma step_mismatch_reach s i j : in_range s i j -> reach_at i j s (step_mismatch tm ic fns i j s).
   Proof.
     intros R. unfold step_mismatch.
     destruct (can_name_match (src_at s i) (dst_at s j) tm ic) eqn:N; cbn [negb]; [|constructor].
-    assert (R1 : reach s (func_loop fns i j s)) by (apply func_loop_reach; auto).
-    set (s1 := func_loop fns i j s) in *. assert (C1 := reach_core _ _ R1).
-    assert (R2 : reach s1 (sub_map i j (f_ty (src_at s1 i)) (f_ty (dst_at s1 j)) false s1)).
+    assert (R1 : reach_at i j s (func_loop fns i j s)) by (apply func_loop_reach; auto).
+    set (s1 := func_loop fns i j s) in *. assert (C1 := reach_at_core _ _ _ _ R1).
+    assert (R2 : reach_at i j s1 (sub_map i j (f_ty (src_at s1 i)) (f_ty (dst_at s1 j)) false s1)).
     { apply sub_map_reach; auto. - eapply in_range_core; eauto. - eapply NM_core; eauto. }
     set (s2 := sub_map i j (f_ty (src_at s1 i)) (f_ty (dst_at s1 j)) false s1) in *.
-    assert (R02 : reach s s2) by (eapply reach_trans; eauto). assert (C2 := reach_core _ _ R02).
-    eapply reach_trans; [exact R02|]. apply sub_list_map_reach.
+    assert (R02 : reach_at i j s s2) by (eapply reach_at_trans; eauto). assert (C2 := reach_at_core _ _ _ _ R02).
+    eapply reach_at_trans; [exact R02|]. apply sub_list_map_reach.
     - eapply in_range_core; eauto.
     - eapply NM_core; eauto.
   Qed.
 
-  Lemma step_match_reach s i j : in_range s i j -> reach s (step_match e tm ic i j s).
+  Lemma step_match_reach s i j : in_range s i j -> reach_at i j s (step_match e tm ic i j s).
   Proof.
     intros R. unfold step_match.
     destruct (can_name_match (src_at s i) (dst_at s j) tm ic) eqn:N; cbn [negb]; [|constructor].
@@ -276,18 +300,18 @@ Section Reach.
     destruct (match_type e t2 t1) as (same', convback) eqn:M2.
     set (s1 := if dst_free s j && (same || conv)
                then to_claim i j (if same then set_canassign else set_isconv t2) (fun f => f) s else s).
-    assert (R1 : reach s s1).
+    assert (R1 : reach_at i j s s1).
     { unfold s1. destruct (dst_free s j && (same || conv)) eqn:C; [|constructor].
       apply andb_true_iff in C. destruct C as (C1 & C2).
-      apply reach_one. constructor; auto.
+      apply reach_at_one. constructor; auto.
       destruct same eqn:S.
       - apply claim_ok_assign. fold t1 t2. rewrite <- (match_type_same _ _ _ _ _ M1). reflexivity.
       - simpl in C2. subst conv. destruct (match_type_conv _ _ _ _ _ M1 eq_refl eq_refl) as (a & b & c).
         apply claim_ok_conv; auto. }
-    assert (C1 := reach_core _ _ R1). destruct (ty_core _ _ C1) as (TS & TD).
+    assert (C1 := reach_at_core _ _ _ _ R1). destruct (ty_core _ _ C1) as (TS & TD).
     destruct (src_free s1 i && (same || convback)) eqn:C; [|exact R1].
     apply andb_true_iff in C. destruct C as (C1' & C2).
-    eapply reach_trans; [exact R1|]. apply reach_one. constructor; auto.
+    eapply reach_at_trans; [exact R1|]. apply reach_at_one. constructor; auto.
     - eapply in_range_core; eauto.
     - eapply NM_core; eauto.
     - destruct same eqn:S.
@@ -328,7 +352,7 @@ Section Reach.
   Theorem passes_reach s : reach s (run_passes e tm ic fns s).
   Proof.
     unfold run_passes. eapply reach_trans.
-    - apply (double_loop_reach (step_mismatch tm ic fns)). intros; apply step_mismatch_reach; auto.
-    - apply (double_loop_reach (step_match e tm ic)). intros; apply step_match_reach; auto.
+    - apply (double_loop_reach (step_mismatch tm ic fns)). intros; eapply reach_at_reach; apply step_mismatch_reach; auto.
+    - apply (double_loop_reach (step_match e tm ic)). intros; eapply reach_at_reach; apply step_match_reach; auto.
   Qed.
 End Reach.
